@@ -28,7 +28,7 @@ def run_one(w):
             s = s.replace(e["old"], e["new"], 1 if not e.get("all") else -1)
             open(p, "w").write(s)
         if w.get("patch"):
-            r = subprocess.run(["git", "apply", "--directory=.", os.path.join(VERIF, w["patch"])], cwd=dst, capture_output=True, text=True)
+            r = subprocess.run(["patch", "-p1", "-s", "-i", os.path.join(VERIF, w["patch"])], cwd=dst, capture_output=True, text=True)
             if r.returncode != 0:
                 return (w, "SKIP", "patch does not apply")
         b = subprocess.run(["go", "build", "./..."], cwd=dst, env=ENV, capture_output=True, text=True)
